@@ -103,7 +103,7 @@ Definition schedule_at_vm (w : vm_worker) (r : request) : vm_worker :=
 (* SchedulerAudioWorker::pop_task(now): peek; `Some(task) if when <= now` => pop *)
 Definition pop_task (sel : selector) (now : N) (h : heap) : option (task * heap) :=
   match heap_pop sel h with
-  | Some (x, h') => if when x <? now then Some (x, h') else None
+  | Some (x, h') => if when x <=? now then Some (x, h') else None
   | None => None
   end.
 
